@@ -69,6 +69,9 @@ pub fn run(args: &Args) {
                 _ => format!("s{}-{}", k, uid),
             }
         };
+        // a workbook with a chart whose categories come from another sheet is not reopened lazily (saving it with that
+        // sheet unloaded is the recorded KF-C11-chart-cache-unloaded-sheet)
+        let mut cross_chart: Vec<bool> = vec![false];
         for opi in 0..nops {
             let bi = rng.below(books.len() as u64) as usize;
             let nsheets = books[bi].get_sheet_count();
@@ -160,10 +163,41 @@ pub fn run(args: &Args) {
                         hist.push(format!("book{} remove sheet {}", bi, si));
                     }
                 }
+                12 => {
+                    // a chart on the first sheet whose category labels are text cells of another sheet: the cached labels are
+                    // text of the package too, and must go when that sheet goes
+                    if nsheets > 1 && lazies[bi].is_none() {
+                        let di = 1 + rng.below(nsheets as u64 - 1) as usize;
+                        let dname = books[bi].get_sheet(&di).unwrap().get_name().to_string();
+                        for row in 1..=3u32 {
+                            let t = text(&mut uid, &mut rng);
+                            books[bi].get_sheet_mut(&di).unwrap().get_cell_mut((1, row)).set_value_string(t);
+                            books[bi].get_sheet_mut(&di).unwrap().get_cell_mut((2, row)).set_value_number(row as f64);
+                        }
+                        let mut from = umya_spreadsheet::structs::drawing::spreadsheet::MarkerType::default();
+                        let mut to = umya_spreadsheet::structs::drawing::spreadsheet::MarkerType::default();
+                        from.set_coordinate("H2");
+                        to.set_coordinate("M12");
+                        let mut chart = Chart::default();
+                        let values = format!("{}!$B$1:$B$3", dname);
+                        chart.new_chart(ChartType::BarChart, from, to, vec![values.as_str()]);
+                        for series in chart.get_area_chart_series_list_mut().get_area_chart_series_mut() {
+                            let mut reference = umya_spreadsheet::drawing::charts::StringReference::default();
+                            reference.get_formula_mut().set_address_str(format!("{}!$A$1:$A$3", dname));
+                            let mut categories = umya_spreadsheet::drawing::charts::CategoryAxisData::default();
+                            categories.set_string_reference(reference);
+                            series.set_category_axis_data(categories);
+                        }
+                        books[bi].get_sheet_mut(&0).unwrap().add_chart(chart);
+                        cross_chart[bi] = true;
+                        hist.push(format!("book{} chart on sheet0 with labels from sheet{} ({})", bi, di, dname));
+                    }
+                }
                 9 => {
                     if books.len() < 4 {
                         let c = books[bi].clone();
                         books.push(c);
+                        cross_chart.push(cross_chart[bi]);
                         let l = lazies[bi].clone();
                         lazies.push(l);
                         hist.push(format!("book{} = clone of book{}", books.len() - 1, bi));
@@ -177,6 +211,7 @@ pub fn run(args: &Args) {
                     }
                     hist.push(format!("book{} read_sheet_collection", bi));
                 }
+                14 if cross_chart[bi] => {}
                 14 => {
                     // reload lazily and continue: sheets stay unloaded until touched
                     if let Ok(bytes) = save(&books[bi], false) {
@@ -219,6 +254,7 @@ pub fn run(args: &Args) {
                                 ("nbooks", J::I(books.len() as i64)),
                                 ("repeat_of_previous", J::B(repeat)),
                                 ("reachable", J::A(reach.iter().map(js).collect())),
+                                ("created_ids", J::I(uid as i64)),
                                 ("lazy_origin", match &lazies[bi] { Some(l) => js(&l.origin), None => J::Null }),
                                 ("unloaded_sheets", match &lazies[bi] { Some(l) => J::A(l.names.iter().zip(&l.loaded).filter(|(_, ld)| !**ld).map(|(n, _)| js(n)).collect()), None => J::A(vec![]) }),
                                 ("history", J::A(hist.iter().map(js).collect())),
